@@ -260,7 +260,8 @@ static int one_write(int e, int pdo, int kind, int sub, uint32_t val)
       if (r == 0 && revalidated && M.op) { if (pdo) { probe_tpdo("re-validation while OPERATIONAL"); probe_time("re-validation while OPERATIONAL"); } else probe_rpdo("re-validation while OPERATIONAL"); }
       if (r == 0 && kind == 0 && !valid(p) && M.op) { if (probe_invalid(pdo, "invalidation while OPERATIONAL", old_id)) return 1; }
       if (kind == 0 && M.op) { if (probe_bystanders(r == 0 ? "after an accepted COB-ID write" : "after a refused COB-ID write")) return 1; }
-      if (r == 0 && kind == 0 && pdo == 0 && M.op && valid(&M.p[1])) probe_time("after a COB-ID write of the RPDO with the same number"); }
+      if (r == 0 && kind == 0 && pdo == 0 && M.op && valid(&M.p[1])) probe_time("after a COB-ID write of the RPDO with the same number");
+      if (r == 0 && kind == 0 && pdo == 1 && M.op && valid(&M.p[0])) probe_rpdo("after a COB-ID write of the TPDO with the same number"); }
     return 0;
 }
 
